@@ -143,6 +143,11 @@ class Ctx:
             self.nice += [tm.le(v, tm.const(min(le if le is not None else 64, 64)))]
         return r
 
+    def witness_cells(self):
+        """Interpolation with symbolic coordinates: resolve cells at the witness (no lemma chaining)."""
+        if self.mode == "sym":
+            self.eng.gs_mode = "witness"
+
     def _apply_override(self, t, names):
         ov = getattr(self, "override", None)
         if not ov:
